@@ -25,6 +25,14 @@ CLAIMED = {
    text="Same scaffold as C06; value sizes are swept so that the space left in a chunk takes every offset -8..+8 around the fit boundary for scalars, octet strings, lists (elements that do / do not fit, lists longer than a message), with data-version and event filters, for reads, subscription priming and subscription reports. The concatenation of decoded chunks must equal the one-shot expected result (each value and event exactly once, lists reassembled in order), every chunk must be well-formed on its own (strict independent TLV walk), fit the maximum payload, and only the last one ends the interaction; inputs that cannot be transported must terminate with a status in a bounded number of chunks.",
    note="TX buffer size is a compile-time constant: 'every buffer size' is explored through value sizes; large-buffers build not covered. Event-number order only noted.",
    tech="runtime monitoring: chunk-reassembly oracle against one-shot reference expansion, boundary sweep of value sizes", ref="DESIGN.md §3 C14"),
+ "C07": dict(cat="exploration",
+   text="Histories over a controller (administrator of two fabrics that deliberately share node ids) and a full device with the real system clusters and a persistent store: fabrics are commissioned through the real ArmFailSafe/CSR/AddTrustedRoot/AddNOC/CommissioningComplete commands, CASE sessions established, resumed and parked, then a fabric vanishes (fail-safe expiry, ArmFailSafe(0), restart before completion, RemoveFabric by own or other administrator), optionally another fabric takes its index. Every session and resumption record in the device snapshots is tied to the fabric incarnation (fabric id, node id, root hash) it was created under; old sessions and old credentials are actively probed; a session of an untouched fabric must keep working.",
+   note="Subscriptions, ACL entries and group keys of the vanished fabric are covered only in so far as they live inside the fabric record that disappears with it. Trusted: snapshot hooks, commissioning scaffold.",
+   tech="runtime monitoring: incarnation-tracking invariant over session-table / resumption-cache snapshots plus active probes after fabric removal", ref="DESIGN.md §3 C07"),
+ "C08": dict(cat="fault_enumeration",
+   text="Commissioning attempts (new fabric over PASE, second fabric through an opened window, UpdateNOC) whose command list is cut, permuted, repeated or issued from another session context, ended by fail-safe expiry, ArmFailSafe(0), RevokeCommissioning, restart or CommissioningComplete, with a KV store failure injected at one mutating operation; afterwards EVERY prefix of the KV operation log is used as a crash point (restart from the map after k operations). Oracle: rollback restores fabrics (canonical serialisation incl. ACLs/groups), networks, fail-safe state and breadcrumb in RAM and after restart; a completed commissioning survives restart; at a crash point the node has the pre-arming or the committed pair, committed only once acknowledged; out-of-order / repeated / foreign-context credential commands are refused without effect.",
+   note="KvBlobStore contract: each store atomic and durable on return. Known finding (listed): the commit is two KV writes and cannot be made atomic over that interface. ArmFailSafe(0)/Revoke by another administrator is observed, not judged.",
+   tech="runtime monitoring: before/after state-dump oracle with exhaustive crash-point enumeration over the recorded KV log and KV fault injection", ref="DESIGN.md §3 C08"),
  "C09": dict(cat="exploration",
    text="Two real nodes exchange uniquely tagged application messages over CASE, PASE and unsecured sessions (1-4 concurrent exchanges, ping-pong and one-way streams) under seeded adversaries (per-datagram loss/dup/delay up to 50 %, drop all acks, drop first n copies, deliver after give-up, duplicate after ack, stale carriers). An offline checker over the recorded {call, return, app-receive, wire} history judges: at most once and in order, Ok only if a copy reached the peer, return within the retransmission budget, error on exhaustion, Ok if a transmission and an acknowledgement got through, back-off lower bound, duplicates of R-flagged messages re-acknowledged.",
    note="Virtual time makes the back-off rule exact. Not judged: 6 transmissions instead of 5; late duplicates on unsecured sessions taken for a counter restart (mandated by C04). Datagrams decoded with the known session keys.",
